@@ -54,6 +54,7 @@ type VC struct {
 	inputs   []WatchTerm
 	assumed  map[string]bool // assumptions recorded for evidence
 	nosafe   bool
+	nosafeKinds map[string]bool
 	declsCache string // type declarations, frozen before obligations are solved in parallel
 	entryAlloc Term
 	nondet   bool // the VC abstracts (loop havoc, contract application, effect-free results): models need not be real executions
